@@ -107,6 +107,40 @@ SCALE = 2   # the harness clock runs in half units of the model's time, so that 
             # that fires early is observable between two ticks
 
 
+def run_shards_resilient(ctx, binary, items, name="replay", rounds=6):
+    """ctx.run_shards, except that a harness process which had to abandon a behaviour because a goroutine of the
+    code under test is blocked in an operation the scheduler cannot abort (exit status 3, after the behaviour's
+    final event - which lists the hung calls - was written) is restarted on the behaviours it has not run yet.
+    A call that never returns is a verdict of the Obs predicate "Hang", never an infrastructure error."""
+    events, todo, n = [], list(items), 0
+    while todo:
+        n += 1
+        try:
+            events += ctx.run_shards(binary, todo, name="%s%d" % (name, n))
+            break
+        except vlib.Infra as e:
+            if "rc=3" not in str(e) or n >= rounds:
+                raise
+            d = os.path.join(ctx.work, "%s%d" % (name, n))
+            got = []
+            for f in sorted(os.listdir(d)):
+                if f.startswith("out") and f.endswith(".ndjson"):
+                    for line in open(os.path.join(d, f)):
+                        line = line.strip()
+                        if line:
+                            try:
+                                got.append(json.loads(line))
+                            except ValueError:
+                                pass
+            done = {e["t"] for e in got if e["e"] == "End"}
+            if not done:
+                raise
+            events += [e for e in got if e["t"] in done]
+            todo = [b for b in todo if b["id"] not in done]
+    events.sort(key=lambda e: (e["t"], e["seq"]))
+    return events
+
+
 def scen(mode, due, close, retry, par=1, maxtime=1):
     return {"mode": mode, "due": {p: d * SCALE for p, d in due.items()}, "close": close, "retry": list(retry),
             "par": par, "maxTime": maxtime * SCALE, "retryDelay": SCALE}
@@ -244,7 +278,7 @@ def run(ctx, replay):
     # ---- execution on the instrumented real code ---------------------------------
     overlay = instrument(ctx, FILES)
     binary = ctx.build_harness("twcheck", overlay=overlay)
-    events = ctx.run_shards(binary, behs)
+    events = run_shards_resilient(ctx, binary, behs)
     by_id = {b["id"]: b for b in behs}
 
     # binding self-test: a corrupted and a truncated copy of an accepted trace must be rejected
